@@ -38,6 +38,8 @@ import XotModel.Lemmas.FspecAllFrame2
 import XotModel.Lemmas.FspecStrComposite
 import XotModel.Lemmas.FspecFrameComposite
 import XotModel.Lemmas.FspecFrameReplace
+import XotModel.Lemmas.FparseHistStep
+import XotModel.Lemmas.ParseWitness
 
 namespace XotModel.Props
 open XotModel XotModel.Spec
@@ -1342,4 +1344,66 @@ example : adjacentTo frameWitness 3 8 = true ∧ (frameWitness.replace 3 8).2 = 
     ((frameWitness.replace 3 11).1.ctx? 13).map HTree.Ctx.shape = some (12, [], .element 3, [14]) :=
   ⟨by decide, by decide, by decide, by decide, by decide, by decide, by decide, by decide, by decide, by decide,
    by decide, by decide⟩
+end XotModel.Props
+
+
+/-! # ================================================================================================
+    # REACHABLE STORES: the calls as steps of histories that PARSE and edit (branch wt-reach2)
+    # ================================================================================================
+
+  The theorems of the sections "every forest with the invariant" (`C05_pair_*`, `C05_clone_node`, `C05_map_insert`,
+  `C05_map_remove`) assume `Forest.Inv` and nothing else about the forest.  `PCall` histories on `PStore`
+  (Model/FparseHist.lean: a step is the parse of an ARBITRARY text, accepted or not, or any extended API call
+  `Forest.XCall`) keep it from `Xot::new()` (`PStore.fph_run_inv` = `C04_reach_full`, Props/C04.lean).  So for the
+  store `s` such a history reaches and the call made NEXT, as a step `.api (.call …)` of the same history type,
+  the only hypotheses left are `PCall.wellKinded` of the earlier steps and what the originals ask of the call itself
+  (it answers `ok`, resp. its argument is live). -/
+
+namespace XotModel.Props
+open XotModel Spec
+
+/-- A call of `Forest.Call` as a step of a full history: forest and answer are the model function's. -/
+theorem C05_call_as_step (s : PStore) (c : Forest.Call) :
+    (s.step (.api (.call c))).forest = (c.run s.forest).1 ∧
+    ((PCall.api (.call c)).run s).2 = .api (c.run s.forest).2 ∧
+    (s.step (.api (.call c))).env = s.env ∧ (s.step (.api (.call c))).index = s.index := ⟨rfl, rfl, rfl, rfl⟩
+
+/-- ⟦C05_reachable_pair_full⟧ **The nine structural calls on every store a history of parses and API calls
+    reaches**, each made as the next step: the forest after the step is the PAIR specification applied to the
+    forest before, handle for handle (`C05_pair_append` … `C05_pair_replace`, every geometry, adjacent text nodes
+    allowed — consolidation may have been switched off earlier in the history). -/
+theorem C05_reachable_pair_full (env : Env) (cs : List PCall) (hw : ∀ c ∈ cs, c.wellKinded) :
+    let s := (PStore.init env).run cs
+    let after := fun (c : Forest.Call) => (s.step (.api (.call c))).forest
+    let ok := fun (c : Forest.Call) => ((PCall.api (.call c)).run s).2 = .api .ok
+    (∀ p c, ok (.append p c) → after (.append p c) = specMoveP (.lastChildOf p) c s.forest) ∧
+    (∀ p c, ok (.prepend p c) → after (.prepend p c) = specMoveP (.firstNormalChildOf p) c s.forest) ∧
+    (∀ r c, ok (.insertAfter r c) → after (.insertAfter r c) = specMoveP (.after r) c s.forest) ∧
+    (∀ r c, ok (.insertBefore r c) → after (.insertBefore r c) = specMoveP (.before r) c s.forest) ∧
+    (∀ n, s.forest.isLive n = true → after (.remove n) = specRemoveP n s.forest) ∧
+    (∀ n, s.forest.isLive n = true → after (.detach n) = specDetachP n s.forest) ∧
+    (∀ n, ok (.elementUnwrap n) → after (.elementUnwrap n) = specUnwrapP n s.forest) ∧
+    (∀ n name, ok (.elementWrap n name) → after (.elementWrap n name) = specWrap n name s.forest) ∧
+    (∀ a b, ok (.replace a b) → after (.replace a b) = specReplaceP a b s.forest) := by
+  intro s after ok
+  have inv : s.forest.Inv := PStore.fph_run_inv cs (PStore.fph_init_inv env) hw
+  exact ⟨fun p c h => C05_pair_append inv (PRes.api.inj h), fun p c h => C05_pair_prepend inv (PRes.api.inj h),
+    fun r c h => C05_pair_insertAfter inv (PRes.api.inj h), fun r c h => C05_pair_insertBefore inv (PRes.api.inj h),
+    fun n h => C05_pair_remove inv h, fun n h => C05_pair_detach inv h,
+    fun n h => C05_pair_unwrap inv (PRes.api.inj h), fun n name h => (C05_pair_wrap inv (PRes.api.inj h)).1,
+    fun a b h => C05_pair_replace inv (PRes.api.inj h)⟩
+
+/-! ### Non-vacuity: parse `<r>a<b/>c</r>` (document 0, `r` 1, `a` 2, `b` 3, `c` 4), then `append(r, a)`: the text
+    `a` leaves its place and is merged into `c` — the forest after the step is the pair specification's. -/
+
+def c05FullCalls : List PCall := [.parse .document "<r>a<b/>c</r>".toList]
+theorem c05FullCalls_wellKinded : ∀ c ∈ c05FullCalls, c.wellKinded := by decide
+
+example : (((PStore.init Env.fresh).run c05FullCalls).step (.api (.call (.append 1 2)))).forest =
+    specMoveP (.lastChildOf 1) 2 ((PStore.init Env.fresh).run c05FullCalls).forest :=
+  (C05_reachable_pair_full Env.fresh c05FullCalls c05FullCalls_wellKinded).1 1 2 (by decide +kernel)
+example : (((PStore.init Env.fresh).run c05FullCalls).step (.api (.call (.append 1 2)))).forest.roots =
+    [.node 0 .document [.node 1 (.element 2) [.node 3 (.element 3) [], .node 4 (.text ['c', 'a']) []]]] := by
+  decide +kernel
+
 end XotModel.Props
